@@ -25,7 +25,7 @@ RULE = ("a case is a schema (secrets aes/xor/best, challenge, bytes, containers,
         "destination's bytes and existence are compared and the audit log must show no write-open of it; every "
         "successful save is compared with dumps() (deterministic states) and loaded back; non-trivial = >= 1 failing "
         "save judged with a pre-existing destination; distinct = distinct (schema, states, format, fault)")
-REQUIRED = ("dest_form:rel", "dest_form:home", "resaves_after_foreign_change", "failing_saves_judged", "natural_failures_judged", "injected_failures_judged", "successful_saves_judged",
+REQUIRED = ("fault:keyfile-again-bad", "fault:keyfile-again-rekey", "dest_form:rel", "dest_form:home", "resaves_after_foreign_change", "failing_saves_judged", "natural_failures_judged", "injected_failures_judged", "successful_saves_judged",
             "loaded_back_equal", "distinct_injection_lines", "fault:unencodable", "fault:keyfile", "fault:format",
             "fault:option", "fault:domain", "fault:keyfile-same-secret", "fault:rekey", "crash_points_judged")
 ASSUMPTIONS = ["atomicity of the write itself (a crash between open and the end of write) is not part of the property",
@@ -219,6 +219,31 @@ def _run(case, ctx, res, cc, env, fmt, root, built, keypath, cfg, dest):
         res.count("fault_did_not_fail:" + fault)
         if fault == "keyfile-same-secret":
             os.unlink(keypath)
+    # ---- the same object has seen a failed key-file open; after a successful save the key file becomes unusable again
+    # (the save must fail and leave the file alone) or is replaced by another key (the file must load back).  This runs
+    # before the failpoint sweep: exceptions injected at arbitrary lines may leave the key-file object in states that
+    # no real fault produces.
+    if fault in ("keyfile", "keyfile-same-secret") and ok is False:
+        again = ["bad", "rekey"][case["r"] % 2]
+        try:
+            if cfg.sec0 is None:
+                cfg.sec0 = "tk%016x" % case["r"]
+        except Exception:
+            return
+        ok1 = _judged_save(cc, ctx, res, cfg, built, root, dest, fmt, {}, log, keypath, "after-key-file-repair")
+        if ok1 is None:
+            return
+        if ok1:
+            with open(keypath, "wb") as fp:
+                fp.write(b"short-key-16byte" if again == "bad" else bytes((case["r"] * 5 + i * 3) % 256 for i in range(32)))
+            res.count("fault:keyfile-again-" + again)
+            ok2 = _judged_save(cc, ctx, res, cfg, built, root, dest, fmt, {}, log, keypath, "fault:keyfile-again-" + again)
+            if ok2 is None:
+                return
+            if again == "bad" and ok2 is True:
+                res.count("fault_did_not_fail:keyfile-again")
+            if again == "bad":
+                os.unlink(keypath)
     # ---- failpoint sweep on a save that succeeds when left alone
     _sweep(cc, ctx, res, case, cfg, built, root, dest, fmt, log, keypath)
 
@@ -291,9 +316,10 @@ def _check_success(cc, ctx, res, cfg, built, root, dest, fmt, kwargs, keypath, a
         res.count("saved_state_does_not_validate_load_back_not_judged")
         return True
     try:
-        if not trees.in_domain(fmt, cfg.to_tree()):
+        if what not in ("fault:domain", "fault:unencodable") and not trees.in_domain(fmt, cfg.to_tree()):
             # a declared default outside the format's domain (XML: a dict key with a newline): what such a file
-            # loads back to is the codec's business (C04), not the save's
+            # loads back to is the codec's business (C04), not the save's.  Not applied to the two stages that put an
+            # unrepresentable value in on purpose: there the save is expected to fail, and one that "succeeds" is judged.
             res.count("saved_state_outside_format_domain_load_back_not_judged")
             return True
     except Exception:
